@@ -313,6 +313,7 @@ func twinMain(args []string) int {
 	tpb := fs.Int("txs", 6, "max txs per block")
 	out := fs.String("out", "twin_report.json", "report file")
 	replayFile := fs.String("replay", "", "replay a case (JSON with genesis, variant seed, history)")
+	withScen := fs.Bool("scenarios", true, "run the directed scenario histories first")
 	fs.Parse(args)
 	r := rand.New(rand.NewSource(*seed))
 	rep := TwinReport{Mode: *mode, Seed: *seed, KindHist: map[string]int{}}
@@ -336,6 +337,11 @@ func twinMain(args []string) int {
 		jobs = append(jobs, job{rp.Genesis, historyFromJSON(rp.History), rp.VSeed})
 	} else {
 		gens := []string{"default", "default", "mature", "pending"}
+		if *withScen {
+			for _, sn := range scenarioNames {
+				jobs = append(jobs, job{"default", scenarioHistory(sn, w), r.Int63()})
+			}
+		}
 		for i := 0; i < *nh; i++ {
 			jobs = append(jobs, job{gens[i%len(gens)], genHistory(r, w, *nb, *tpb), r.Int63()})
 		}
